@@ -124,7 +124,18 @@ func init() {
 		return d, true
 	}
 	exact["(*github.com/cenkalti/backoff/v4.ExponentialBackOff).Reset"] = noop
-	exact["time.Sleep"] = noop
+	// time.Sleep: no time passes in the model, but a sleeping spawned goroutine lets everybody else run first (it is
+	// parked runnable at the end of the queue) - what a goroutine reads AFTER its sleep is read after the others moved on
+	exact["time.Sleep"] = func(e *Engine, st *State, fn *ssa.Function, args []Value, retTo *ssa.Call) (Value, bool) {
+		if st.curGo == 0 || len(st.gos) == 0 {
+			return nil, true
+		}
+		me := &Gor{id: st.curGo, frames: st.frames, blockedAt: -1}
+		st.gos = append(st.gos, me)
+		e.schedule(st)
+		e.modelsUsed["time.Sleep in a spawned goroutine yields to the other goroutines"] = true
+		return pendingV, true
+	}
 	exact["runtime/debug.Stack"] = func(e *Engine, st *State, fn *ssa.Function, args []Value, retTo *ssa.Call) (Value, bool) {
 		return st.newByteSlice(mkString("<stack>").B), true
 	}
